@@ -1165,8 +1165,8 @@ func genValue(o gen.Opt, depth, width int) *rapid.Generator[any] {
 func genChain(o gen.Opt) *rapid.Generator[any] {
 	return rapid.Custom(func(t *rapid.T) any {
 		d := rapid.IntRange(5, 40).Draw(t, "depth")
-		if rapid.IntRange(0, 7).Draw(t, "deep") == 0 {
-			d = rapid.IntRange(41, 200).Draw(t, "deeper")
+		if rapid.IntRange(0, 63).Draw(t, "deep") == 0 {
+			d = rapid.IntRange(41, 120).Draw(t, "deeper") // up to 200: sweep S4
 		}
 		var v any
 		switch rapid.IntRange(0, 3).Draw(t, "leaf") {
@@ -1222,8 +1222,8 @@ func genRootContainer(o gen.Opt) *rapid.Generator[any] {
 func genAny(o gen.Opt) *rapid.Generator[any] {
 	return rapid.Custom(func(t *rapid.T) any {
 		var v any
-		if rapid.IntRange(0, 39).Draw(t, "large") == 0 { // around the fast-path thresholds for element counts
-			n := rapid.SampledFrom(sweepMembers[:9]).Draw(t, "members")
+		if rapid.IntRange(0, 499).Draw(t, "large") == 0 { // around the fast-path thresholds for element counts (the sweep S3 covers them systematically)
+			n := rapid.SampledFrom([]int{31, 32, 33, 63, 64, 65}).Draw(t, "members") // 255..257 and 1000: sweep S3 only (cost grows with the square)
 			vs := sizedValues(n, rapid.Uint64Range(0, 1<<20).Draw(t, "seed"))
 			return vs[rapid.IntRange(0, len(vs)-1).Draw(t, "which")]
 		}
